@@ -62,8 +62,13 @@ class Inner:
         self.raised = []
         self.returned = []
 
+    clock = None        # when set: every invocation takes `takes` seconds of (virtual) time before it returns or raises
+    takes = 0.0
+
     def _step(self, name, args, kwargs):
         self.events.append(("call", name, args, kwargs))
+        if self.clock is not None:
+            self.clock.advance(self.takes)
         o = self.script.pop(0) if self.script else "ok"
         if o == "ok":
             r = object()
@@ -140,6 +145,14 @@ def run_case(res, retrying, attempts, seq, rf, dn, how, delay, method):
         return
     saved = retrying.sleep
     retrying.sleep = lambda d: events.append(("sleep", d))
+    # attempts that take time: a third of the cases let every invocation last longer than retry_delay on a virtual clock that
+    # is offered to retrying.py as its `time` global (the delay between attempts is retry_delay however long an attempt took)
+    from vk.refserver import VClock
+    restore_time = None
+    if (attempts + len(rf) + len(dn) + len(method)) % 3 == 0:
+        inner.clock = VClock()
+        inner.takes = 2 * delay + 0.5
+        restore_time = inner.clock.patch_module(retrying)       # (after `sleep` was replaced by the recorder above)
     a1, a2 = object(), object()
     out = None
     try:
@@ -172,6 +185,8 @@ def run_case(res, retrying, attempts, seq, rf, dn, how, delay, method):
                          "__setitem__": ("set", (a1, a2), {"noreply": True}), "__delitem__": ("delete", (a1,), {"noreply": True}),
                          "__getitem__": ("get", (a1,), {})}.get(method, (method, (a1, a2), {"noreply": False}))
     finally:
+        if restore_time is not None:
+            restore_time()
         retrying.sleep = saved
     ncalls, kind = predict(attempts, seq, rf, dn)
     calls = [e for e in events if e[0] == "call"]
